@@ -18,7 +18,7 @@ from fractions import Fraction
 
 from vlib.framework import canon
 
-from . import c04
+from . import c04, c04grid
 
 PROPS = ["MxlVerif.Props.C14"]
 FINDING_STEADY = "F-C14-2"
@@ -344,6 +344,10 @@ def run(ctx):
         process(ctx, ex[i:i + 400])
         if len(ctx.violations) > 10:
             return
+    # oracle-only: requested grids that are not dyadic (thirds, sevenths, tenths, linspace(0, 3, 22)), exact labels
+    c04grid.run(ctx, ctx.n(500, 6000), protocols=True)
+    if len(ctx.violations) > 10:
+        return
     n = ctx.n(2500, 50000) * (2 if widen and ctx.tier != "thorough" else 1)
     done = 0
     while done < n and len(ctx.violations) <= 10:
@@ -363,6 +367,8 @@ def run(ctx):
 
 def replay(ctx, rp):
     case = rp.get("case") or rp
+    if case.get("grid"):
+        return c04grid.replay(ctx, case)
     (real, drv), = c04.evaluate([case], ctx.driver_ok, op="c14", parallel=False)
     if drv is not None:
         R, M, S, okhist = c04.assemble(case, real, drv)
